@@ -278,12 +278,13 @@ def ext_cases(prop):
         return _CACHE[key]
     cases = []
     if prop == "C12":
-        # an asynchronous abort at every 5th line event of the parse of every
+        # an asynchronous abort at evenly spaced fractions (about every 5th line event) of the parse of every
         # construct snippet (about 60-80 line events per token), then probes
         progs = _programs()
         for si, items in enumerate(progs):
-            for k in range(1, 70 * max(4, _ntok(items)), 5):
-                cases.append((si, k))
+            q = 25 * max(4, _ntok(items))  # spacing of about 5 line events
+            for i in range(q):
+                cases.append((si, i, q))
     else:
         # one pre-emption inside A's parse at Q evenly spaced line events (Q chosen so
         # that the spacing is about 8 line events for a partner with clashing names
@@ -308,12 +309,12 @@ def ext_cases(prop):
 def ext_spec(prop, j):
     c = ext_cases(prop)[j]
     if prop == "C12":
-        si, k = c
+        si, qi, q = c
         items = _programs()[si]
         p1 = list(CLASH_PROBES[H("xp1", j) % len(CLASH_PROBES)])
         obj = "P0" if j % 2 else "P1"
         ops = [
-            {"op": "parse", "obj": obj, "filename": "a.c", "items": list(items), "fault": {"kind": "line-abort", "at": k, "exc": EXCS[j % 3]}},
+            {"op": "parse", "obj": obj, "filename": "a.c", "items": list(items), "fault": {"kind": "line-abort", "at_fraction": [qi, q], "exc": EXCS[j % 3]}},
             {"op": "parse", "obj": obj, "filename": "probe.c", "items": p1},
             {"op": "parse", "obj": obj, "filename": "a.c", "items": list(items)},
         ]
